@@ -35,6 +35,9 @@ def run_into(rep, tier):
   # stored under, whichever spelling either side used: finalize must find the definition
   cc.replay_scenarios(rep, 'GinCore_Scen_macrofin', max_files=400 if tier == 'quick' else 3000, nontrivial=_macro_ref_case,
                       depth=5 if tier == 'quick' else 6, timeout=200, salts=(0, 1))
+  # config text: a name that matches several configurables is known (never skipped by skip_unknown) and rejected
+  from ginverif.checks import common_parse
+  common_parse.run_into(rep, 'C08', tier, budget=200 if tier == 'quick' else 3000, only_focus=True)
   cc.replay_scenarios(rep, 'GinCore_Scen_lock', max_files=250 if tier == 'quick' else 2000, nontrivial=_hook_case, depth=9)
   cc.model_check(rep, 'MC_Spellings_quick', timeout=600)
   n = 200 if tier == 'quick' else 3000
